@@ -145,3 +145,52 @@ package action
 //@   requires i != nil && i.cfg != nil && i.cfg.KubeClient != nil && i.cfg.Releases != nil && chrt != nil
 //@   ensures [dry-run-no-cluster-mutation] old(installDryRun(i)) ==> Kmutated == old(Kmutated)
 //@   ensures [dry-run-no-storage-write] old(installDryRun(i)) ==> Dwritten == old(Dwritten)
+
+//@ ghost func upgradeDryRun(u *Upgrade) bool = u.DryRun || u.DryRunOption == "client" || u.DryRunOption == "server" || u.DryRunOption == "true"
+
+//@ func (*Upgrade).isDryRun
+//@   props C06
+//@   requires u != nil
+//@   ensures [def] result == upgradeDryRun(u)
+
+//@ func (*Upgrade).prepareUpgrade
+//@   props C06
+//@   requires u != nil && u.cfg != nil && u.cfg.KubeClient != nil && u.cfg.Releases != nil
+//@   ensures [prepare-no-cluster-mutation] Kmutated == old(Kmutated)
+//@   ensures [prepare-no-storage-write] Dwritten == old(Dwritten)
+//@   ensures [selectors-unchanged] upgradeDryRun(u) == old(upgradeDryRun(u))
+//@   ensures [results] result2 == nil ==> result0 != nil && result1 != nil && result1.Info != nil
+
+//@ func (*Upgrade).performUpgrade
+//@   props C06
+//@   requires u != nil && u.cfg != nil && u.cfg.KubeClient != nil && u.cfg.Releases != nil && originalRelease != nil && upgradedRelease != nil && upgradedRelease.Info != nil
+//@   ensures [dry-run-no-cluster-mutation] old(upgradeDryRun(u)) ==> Kmutated == old(Kmutated)
+//@   ensures [dry-run-no-storage-write] old(upgradeDryRun(u)) ==> Dwritten == old(Dwritten)
+//@   ensures [selectors-unchanged] upgradeDryRun(u) == old(upgradeDryRun(u))
+
+//@ func (*Upgrade).RunWithContext
+//@   props C06
+//@   requires u != nil && u.cfg != nil && u.cfg.KubeClient != nil && u.cfg.Releases != nil
+//@   ensures [dry-run-no-cluster-mutation] old(upgradeDryRun(u)) ==> Kmutated == old(Kmutated)
+//@   ensures [dry-run-no-storage-write] old(upgradeDryRun(u)) ==> Dwritten == old(Dwritten)
+
+//@ func (*Rollback).performRollback
+//@   props C06
+//@   requires r != nil && r.cfg != nil && r.cfg.KubeClient != nil && r.cfg.Releases != nil && currentRelease != nil && targetRelease != nil
+//@   ensures [dry-run-no-cluster-mutation] old(r.DryRun) ==> Kmutated == old(Kmutated)
+//@   ensures [dry-run-no-storage-write] old(r.DryRun) ==> Dwritten == old(Dwritten)
+//@   ensures [selector-unchanged] r.DryRun == old(r.DryRun)
+
+//@ func (*Rollback).prepareRollback
+//@   props C06
+//@   requires r != nil && r.cfg != nil && r.cfg.Releases != nil
+//@   ensures [prepare-no-cluster-mutation] Kmutated == old(Kmutated)
+//@   ensures [prepare-no-storage-write] Dwritten == old(Dwritten)
+//@   ensures [selector-unchanged] r.DryRun == old(r.DryRun)
+//@   ensures [results] result2 == nil ==> result0 != nil && result1 != nil && result1.Info != nil
+
+//@ func (*Rollback).Run
+//@   props C06
+//@   requires r != nil && r.cfg != nil && r.cfg.KubeClient != nil && r.cfg.Releases != nil
+//@   ensures [dry-run-no-cluster-mutation] old(r.DryRun) ==> Kmutated == old(Kmutated)
+//@   ensures [dry-run-no-storage-write] old(r.DryRun) ==> Dwritten == old(Dwritten)
